@@ -308,6 +308,7 @@ type regOp struct {
 	Level int    `json:"level,omitempty"`
 	Pair  int    `json:"pair"`
 	Note  string `json:"note,omitempty"`
+	Via   int    `json:"via,omitempty"` // 0 direct, 1 plugin (argument), 2 plugin (captured builder), 3 nested plugin
 }
 
 var wordPool = []string{"OPa", "OPb", "OPc", "OPd", "OPe", "OPf"}
@@ -363,17 +364,34 @@ func mkPostfix(word string) func(token.Token, ast.Expression) ast.Expression {
 
 // apply performs one registration on the real builders; returns (id, refused).
 func (p *pair) applyReal(op regOp) (token.Type, bool) {
-	switch op.Kind {
-	case "tok":
+	if op.Kind == "tok" {
 		return p.lb.RegisterTokenType(op.Name), false
-	case "prefix":
-		return 0, p.pb.RegisterPrefixOperator(token.Type(op.Type), mkPrefix(op.Name)) != nil
-	case "infix":
-		return 0, p.pb.RegisterInfixOperator(token.Type(op.Type), op.Level, mkInfix(op.Name, op.Level)) != nil
-	case "postfix":
-		return 0, p.pb.RegisterPostfixOperator(token.Type(op.Type), mkPostfix(op.Name)) != nil
 	}
-	return 0, false
+	// operators are registered directly or from inside a plugin (Install), in the spellings users write:
+	// through the builder the plugin is handed, through the builder variable it closed over, nested
+	reg := func(b *parser.Builder) bool {
+		switch op.Kind {
+		case "prefix":
+			return b.RegisterPrefixOperator(token.Type(op.Type), mkPrefix(op.Name)) != nil
+		case "infix":
+			return b.RegisterInfixOperator(token.Type(op.Type), op.Level, mkInfix(op.Name, op.Level)) != nil
+		case "postfix":
+			return b.RegisterPostfixOperator(token.Type(op.Type), mkPostfix(op.Name)) != nil
+		}
+		return false
+	}
+	refused := false
+	switch op.Via {
+	case 1:
+		p.pb.Install(func(b *parser.Builder) { refused = reg(b) })
+	case 2:
+		p.pb.Install(func(*parser.Builder) { refused = reg(p.pb) })
+	case 3:
+		p.pb.Install(func(b *parser.Builder) { b.Install(func(b2 *parser.Builder) { refused = reg(b2) }) })
+	default:
+		refused = reg(p.pb)
+	}
+	return 0, refused
 }
 
 var builtinSym = map[token.Type]string{token.ASSIGN: "=", token.PLUS_ASSIGN: "+=", token.MINUS_ASSIGN: "-=", token.OR: "||", token.AND: "&&", token.EQ: "==", token.NOT_EQ: "!=", token.LT: "<", token.GT: ">",
@@ -672,7 +690,96 @@ type built struct {
 	hist   int
 }
 
+// builtinHost: a role may be registered on a built-in token that lacks it (postfix `!` is the library's own
+// example). Whatever token hosts the operator, it must group like the same operator on a fresh dynamic token.
+var builtinHosts = []struct {
+	role string
+	t    token.Type
+	sym  string
+}{
+	{"postfix", token.NOT, "!"}, {"postfix", token.MODULO, "%"}, {"postfix", token.GT, ">"},
+	{"prefix", token.PLUS, "+"}, {"prefix", token.MULTIPLY, "*"}, {"prefix", token.LT, "<"},
+	{"infix", token.NOT, "!"},
+}
+
+func (e *Engine) builtinHostScenario(ch *kernel.Chooser, st *kernel.Stats) kernel.RunResult {
+	res := kernel.RunResult{Evals: 1, Nontrivial: true}
+	h := builtinHosts[ch.Choose(len(builtinHosts))]
+	level := 2 + ch.Choose(12)
+	icpt := ch.Weighted(5, 1, 1, 1)
+	const word = "OPz"
+	// pair D: the operator on a dynamic token; pair B: the same operator on the built-in token
+	d, b := newPairWith(icpt), newPairWith(icpt)
+	id := d.lb.RegisterTokenType(word)
+	d.words[word] = id
+	d.model.ids[word] = id
+	d.model.order = append(d.model.order, word)
+	var refusedD, refusedB bool
+	switch h.role {
+	case "prefix":
+		_, refusedD = d.applyReal(regOp{Kind: "prefix", Name: word, Type: int(id)})
+		_, refusedB = b.applyReal(regOp{Kind: "prefix", Name: word, Type: int(h.t)})
+		d.model.prefix[id] = true
+	case "infix":
+		_, refusedD = d.applyReal(regOp{Kind: "infix", Name: word, Type: int(id), Level: level})
+		_, refusedB = b.applyReal(regOp{Kind: "infix", Name: word, Type: int(h.t), Level: level})
+		d.model.infix[id] = level
+	default:
+		_, refusedD = d.applyReal(regOp{Kind: "postfix", Name: word, Type: int(id)})
+		_, refusedB = b.applyReal(regOp{Kind: "postfix", Name: word, Type: int(h.t)})
+		d.model.postfix[id] = true
+	}
+	st.Inc("probe.operator_hosted_on_builtin_token_without_that_role")
+	res.Fingerprint = kernel.Mix(kernel.Hash64(h.role+h.sym), uint64(level)*7+uint64(icpt))
+	if refusedD || refusedB {
+		res.Violations = append(res.Violations, kernel.Violation{Property: "C05", Kind: "refusal", Signature: "refusal|" + h.role + "|builtin-host",
+			Detail: fmt.Sprintf("Register%sOperator was refused (dynamic token: %v, built-in token %s which has no %s role: %v)", strings.Title(h.role), refusedD, h.sym, h.role, refusedB)})
+		return res
+	}
+	for try := 0; try < 6; try++ {
+		pr, ok := genProbe(ch, d.model, st)
+		if !ok {
+			continue
+		}
+		clash, uses := false, false
+		hosted := make([]item, len(pr.items))
+		for i, it := range pr.items {
+			hosted[i] = it
+			if it.word == word {
+				hosted[i].text = h.sym
+				uses = true
+			} else if it.text == h.sym || strings.Contains(it.text, h.sym) {
+				clash = true // the symbol also occurs as itself: its built-in meaning would be in play
+			}
+		}
+		if clash || !uses {
+			continue
+		}
+		res.Evals++
+		textD, textB := render(pr.items), render(hosted)
+		a, aerr := parseExpr(d.pb, textD)
+		x, xerr := parseExpr(b.pb, textB)
+		sa, sx := "", ""
+		if aerr == "" {
+			sa = sexpr(a, nil)
+		}
+		if xerr == "" {
+			sx = sexpr(x, nil)
+		}
+		if (aerr == "") != (xerr == "") || sa != sx {
+			res.Violations = append(res.Violations, kernel.Violation{Property: "C05", Kind: "grouping", Signature: "substitution|builtin-host|" + h.role,
+				Detail: fmt.Sprintf("%s operator (level %d) hosted on the built-in token %s: %q parses as %s %s; the same operator on a dynamic token, %q, parses as %s %s", h.role, level, h.sym, textB, sx, xerr, textD, sa, aerr),
+				Materialised: map[string]any{"role": h.role, "symbol": h.sym, "level": level, "probe_dynamic": textD, "probe_builtin_host": textB}})
+			return res
+		}
+	}
+	return res
+}
+
 func (e *Engine) Run(prop string, ch *kernel.Chooser, st *kernel.Stats) kernel.RunResult {
+	if ch.Bool(1, 12) {
+		return e.builtinHostScenario(ch, st)
+	}
 	nPairs := 1 + ch.Weighted(3, 2)
 	pairs := make([]*pair, nPairs)
 	for i := range pairs {
@@ -886,7 +993,10 @@ func (e *Engine) Run(prop string, ch *kernel.Chooser, st *kernel.Stats) kernel.R
 				// levels with a built-in binary operator, more often
 				level = parser.LOGICAL_OR + ch.Choose(6)
 			}
-			op := regOp{Kind: role, Name: name, Type: int(tt), Level: level, Pair: pi}
+			op := regOp{Kind: role, Name: name, Type: int(tt), Level: level, Pair: pi, Via: ch.Weighted(6, 1, 1, 1)}
+			if op.Via != 0 {
+				st.Inc("probe.operator_registered_from_inside_a_plugin")
+			}
 			// the property does not say what infix+postfix on one token means: do not generate it
 			if !builtin {
 				if role == "postfix" {
